@@ -289,12 +289,33 @@ pub fn step(m: &M, preds: &Preds, chars: &[char], from: &Pos) -> Pos {
             }
             let mut result = cur.clone();
             match max {
-                None => loop {
-                    cur = step(inner, preds, chars, &cur);
-                    if !result.union_with(&cur) {
-                        break;
+                None => {
+                    // fixed point with a frontier of new positions only (a run of tens of
+                    // thousands of characters must not cost a full union per position)
+                    let mut seen = vec![false; n + 2];
+                    let mut all: Vec<usize> = cur.iter().collect();
+                    for p in &all {
+                        seen[*p] = true;
                     }
-                },
+                    let mut frontier = cur;
+                    while !frontier.is_empty() {
+                        let next = step(inner, preds, chars, &frontier);
+                        let mut fresh = Pos::new(n);
+                        for p in next.iter() {
+                            if !seen[p] {
+                                seen[p] = true;
+                                fresh.insert(p);
+                                all.push(p);
+                            }
+                        }
+                        frontier = fresh;
+                    }
+                    all.sort_unstable();
+                    result = Pos::new(n);
+                    for p in all {
+                        result.insert(p);
+                    }
+                }
                 Some(mx) => {
                     for _ in *min..*mx {
                         if cur.is_empty() {
